@@ -75,18 +75,22 @@ fn extract_version_prefix(version: &str) -> &str {
 /// (`jsr:@scope/name@^1.0.0`) the reported token is the whole specifier: the version is located
 /// inside it. Returns `None` when the version text does not occur in the token (for example a
 /// PEP 440 specifier that was normalised while parsing), because no safe edit exists then.
+/// The column of the result is counted in UTF-16 code units, as the client counts it.
 pub fn locate_version_in_token(package: &PackageInfo, content: &str) -> Option<PackageInfo> {
+    let mut located = package.clone();
+
     // Hash-pinned actions are rewritten as a whole (hash and comment)
-    if package.commit_hash.is_some() {
-        return Some(package.clone());
+    if package.commit_hash.is_none() {
+        let token = content.get(package.start_offset..package.end_offset)?;
+        let shift = token.rfind(package.version.as_str())?;
+        located.start_offset += shift;
+        located.column += shift;
     }
 
-    let token = content.get(package.start_offset..package.end_offset)?;
-    let shift = token.rfind(package.version.as_str())?;
-
-    let mut located = package.clone();
-    located.start_offset += shift;
-    located.column += shift;
+    // Cursor positions and edits are exchanged in UTF-16 code units, the parsers count bytes
+    if let Some((column, _)) = located.utf16_span(content) {
+        located.column = column as usize;
+    }
     Some(located)
 }
 
